@@ -594,6 +594,20 @@ def gen_corridx(tier, rng):
                 B = [b + np.array([[rng.randint(-2, 2) / 16 for _ in range(r)] for _ in range(b.shape[0])]) for b in B]
                 if all(np.all(np.abs(b).sum(axis=0) > 0) for b in B):
                     calls.append(dict(As=A, Bs=B, method=meth, tol=tolv, stream="perturbed"))
+    # (a') three modes, the LAST pair decides: max_score with modes 1-2 equivalent and mode 3 unrelated, min_score with modes 1-2
+    #      unrelated and mode 3 equivalent, avg_score with only mode 3 unrelated (a reduction that drops a mode is wrong on these)
+    for meth in ("max_score", "min_score", "avg_score"):
+        for _ in range(3 if tier == "quick" else 8):
+            r = rng.randint(2, 4); hs = [rng.randint(2, 5) for _ in range(3)]
+            A = factor_set(rng, r, hs, generic=True)
+            sigma = list(range(r)); rng.shuffle(sigma)
+            B = equivalent_copy(A, sigma, scalings(rng, r, 3, "signed"))
+            R_ = factor_set(rng, r, hs)
+            if meth == "min_score":
+                B = [R_[0], R_[1], B[2]]
+            else:
+                B = [B[0], B[1], R_[2]]
+            calls.append(dict(As=A, Bs=B, method=meth, tol=None, stream="last-mode-decides"))
     # (b) the threshold met EXACTLY (floating point is exact on these inputs, so the strict `score < tol` is decidable):
     #     orthogonal supports -> every cosine is exactly 0, raw index exactly 1.0, tol = 1.0 -> the result is 1.0, not 0;
     #     unit vectors scaled by powers of two, half of them shared -> raw index exactly 0.5, tol = 0.5 -> 0.5
